@@ -9,6 +9,10 @@ Case  c18.bf      payload [alts, rankings, mults, ks]
    Judge = the model's  brute_force_ok  (second sentence of the property; theorem brute_force_ok_correct) evaluated for
    every (k, result) with the verified optimum min_partition:  optimum <= k -> a partition passing partition_check
    with exactly `optimum` axes;  optimum > k -> None.
+Every c18.bf case is also compared with the MIRROR of the (repaired) brute force, c18.bf_algo (Model/PartitionAlgo.v): same
+None-ness and same number of axes for every k; equality of the returned partition is only counted.  The mirror is run
+with the order in which CPython iterates the L-sets (observed by calling /repo's get_L_sets in the worker) as its order
+parameter.  Case c18.algo (m = 9..15): implementation against the mirror only.
 rankings : flat strict complete rankings (distinct), storage order; mults : multiplicities (>= 1).
 Defect KF-C18-a (from m = 6 on the brute force was not minimum: pairs only inside one L-set) was found by this check and
 repaired in /repo by 175f7ec; its 77 failing inputs are kept in corpus/C18/fixed-175f7ec-bruteforce-not-minimum.json."""
@@ -48,7 +52,8 @@ COVER_FILES = ["properties/subdomains/ordinal/singlepeaked/k_alternative_partiti
 COVER_TIMEOUT_S = 60
 TIMEOUT_S = 30.0
 CHUNK = 8
-THEOREMS_FOR_OP = {"c18.approx": "partition_check_correct / check_valid_bound",
+THEOREMS_FOR_OP = {"c18.algo": "bf_sound / bf_complete_min (mirror Model/PartitionAlgo.v)",
+                   "c18.approx": "partition_check_correct / check_valid_bound",
                    "c18.bf": "brute_force_ok_correct / min_partition_correct / partition_check_correct"}
 REF_MAX_M = 8      # the reference optimum is run up to this size
 
@@ -261,6 +266,16 @@ def generate(tier, seed):
             j += 1
     merged.extend(det[j:])
     out[:] = merged
+
+    # ---- brute force against its MIRROR only (no reference optimum at these sizes): m = 9..13 (thorough 9..15)
+    for i in range(250 if not thorough else 2500):
+        m = rng.randint(9, 13 if not thorough else 15)
+        alts = rand_ids(rng, m)
+        votes, mults, style = mixed_votes(rng, i, m, alts)
+        c = bf_case(rand_perm(rng, alts), votes, mults, style=style)
+        c["op"] = "c18.algo"
+        c["payload"][3] = sorted({1, 2, 3, rng.randint(1, m), (m + 1) // 2, m + 1})
+        out.append(c)
 
     # ---- approx with the reference optimum (m <= REF_MAX_M), seed-dependent
     nref = 900 if not thorough else 7000
